@@ -18,6 +18,7 @@
 #include <stdio.h>
 #include <stdlib.h>
 #include <string.h>
+#include <time.h>
 
 #define MAXT 3
 #define MAXOPS 3
@@ -80,6 +81,9 @@ static int strict_replay;            /* replaying a full schedule: needing a dec
 static const char *follow;           /* replay mode: schedule given as text, followed without recorded enabled sets */
 static int follow_len;
 static unsigned long long n_decisions, n_runs;
+
+static long long deadline;            /* CLOCK_MONOTONIC nanoseconds; 0 = none (no floating point: -mgeneral-regs-only) */
+static long long now(void) { struct timespec ts; clock_gettime(CLOCK_MONOTONIC, &ts); return ts.tv_sec * 1000000000LL + ts.tv_nsec; }
 
 static void die(const char *msg) {
   printf("HARNESS-ERROR %s prog=%s depth=%d\n", msg, prog.id, depth);
@@ -376,6 +380,11 @@ static void explore(void) {
         die("nondeterminism: replaying a schedule produced a different event trace");
       validated++;
     }
+    if (deadline && (schedules & 1023) == 0 && now() > deadline) {
+      printf("TIMEOUT %s after %llu schedules\n", prog.id, schedules);
+      fflush(stdout);
+      exit(0);
+    }
     /* backtrack: deepest decision with an untried alternative inside the preemption budget */
     int d;
     for (d = len - 1; d >= 0; d--) {
@@ -422,8 +431,9 @@ static void replay_schedule(const char *s) {
   printf("END %s\n", prog.id);
 }
 
-int main(void) {
+int main(int argc, char **argv) {
   static char line[1 << 16];
+  if (argc > 1 && atol(argv[1]) > 0) deadline = now() + atol(argv[1]) * 1000000000LL;
   setvbuf(stdout, 0, _IOFBF, 1 << 16);
   __asm__ volatile("fxsave64 %0" : "=m"(fx_template.fx));
   while (fgets(line, sizeof line, stdin)) {
